@@ -298,3 +298,4 @@ def check(facts, rep, tier, cfg):
     rep.rule("C02.S7", "who-may: the functions that touch the critical resources behind this property are those of the reference tree (flow table, closed flag, per-stream / datagram / outbound queues, last-pong timestamp, client id maps, shared TLS identity)")
     import whomay
     whomay.check(facts, rep, "C02.S7", "C02")
+    whomay.check_new_statics(facts, rep, "C02.S7", "C02")
